@@ -54,6 +54,15 @@ def r1(ctx, R):
     stored_unc = [c for c in st if any(i in r_unc for i in q.nodes_for(oe, c))]
     if not unc or stored_unc or oe.cfg.exit not in r_unc:
         R.bad(oe, oe.node, "no uncached execution branch", stmt="else: altfunc(*key)")
+    R.inst("on_eval_formula: an uncached cells refuses a None result exactly like a cached one")
+    nr_ = q.raises(oe, "NoneReturnedError")
+    v_none = lambda e: {"self.is_cached": "F", "value is None": "T", "value is not None": "F",
+                        "self.get_property('allow_none')": "F"}.get(norm(e))
+    v_ok = lambda e: {"self.is_cached": "F", "value is None": "T", "value is not None": "F",
+                      "self.get_property('allow_none')": "T"}.get(norm(e))
+    if not nr_ or not any(q.reached_under(oe, r_, v_none) for r_ in nr_) or any(q.reached_under(oe, r_, v_ok) for r_ in nr_):
+        R.bad(oe, oe.node, "a formula returning None raises for a cached cells but returns None for an uncached one: a dependent "
+                           "gets a value or an error depending on the flag", stmt="uncached None refusal")
     # callee-side guard?
     sv = ctx.func("CellsImpl.set_value_from_key")
     callee_guard = False
